@@ -436,7 +436,7 @@ theorem response_delivered_or_dropped_whole (L : Limits) (ops : List Op) (t : At
 message, then a fresh substream: two calls, the first wrote one message and failed, the second wrote
 all three. -/
 example :
-    ((run toyL {} [.conn 1, .command 1 (.response []), .subopen 0 none 0, .plan 0 (some 1) 0,
+    ((run toyL {} [.conn 1 true, .command 1 (.response []), .subopen 0 none 0, .plan 0 (some 1) 0,
         .command 1 (.response toyR), .subopen 1 none 0]).2.map fun t => (t.sub, t.written.length, t.ok)) =
       [(0, 0, true), (0, 1, false), (1, 3, true)] := by
   decide
@@ -477,7 +477,7 @@ theorem cached_failure_requeues_whole (L : Limits) (st : St) (p s : Nat) (a : Ac
 
 /-- Non-vacuity: the state after the failing call of the example above. -/
 example :
-    let st := (run toyL {} [.conn 1, .command 1 (.response []), .subopen 0 none 0, .plan 0 (some 1) 0]).1
+    let st := (run toyL {} [.conn 1 true, .command 1 (.response []), .subopen 0 none 0, .plan 0 (some 1) 0]).1
     alookup 1 st.outbound = some 0 ∧ (attempt toyL 0 (st.far 0) (.response toyR)).1.ok = false ∧
     alookup 1 (onCommand toyL st 1 (.response toyR)).1.pendingOutbound = some [.response toyR] ∧
     (onCommand toyL st 1 (.response toyR)).1.pendingSubstreams = [(1, 1)] := by
@@ -521,7 +521,7 @@ theorem fresh_substream_runs_queue_in_order (L : Limits) (st : St) (p s : Nat) (
 /-- Non-vacuity: two queued responses, the fresh substream fails at its fifth message: the first
 response is sent completely, the second from its first message up to the failure; nothing is cached. -/
 example :
-    let st := (run toyL {} [.conn 1, .command 1 (.response toyR), .command 1 (.response toyR)]).1
+    let st := (run toyL {} [.conn 1 true, .command 1 (.response toyR), .command 1 (.response toyR)]).1
     alookup 1 st.pendingOutbound = some [.response toyR, .response toyR] ∧
     ((onOutboundSubstream toyL st 1 0 ⟨some 4, 0, false⟩).2.attempts.map fun t => (t.written.length, t.ok)) =
       [(3, true), (1, false)] ∧
@@ -553,7 +553,7 @@ theorem queue_untouched_by_other_events (L : Limits) (st : St) (op : Op)
     · rfl
     · split <;> rfl
   | inend k => simp only [step]; split <;> rfl
-  | conn _ => exact absurd h (by simp)
+  | conn _ _ => exact absurd h (by simp)
   | disc _ => exact absurd h (by simp)
   | dialfail _ => exact absurd h (by simp)
   | subopen _ _ _ => exact absurd h (by simp)
@@ -563,8 +563,8 @@ theorem queue_untouched_by_other_events (L : Limits) (st : St) (op : Op)
 /-- Non-vacuity: a queued response survives a manager-view change, a dead command channel and an
 inbound substream, and is dropped by the dial failure. -/
 example :
-    ((run toyL {} [.command 2 (.response toyR), .view 2 .dialing, .conn 1, .insub 1, .conndead 1]).1.pendingOutbound,
-     (run toyL {} [.command 2 (.response toyR), .view 2 .dialing, .conn 1, .insub 1, .conndead 1,
+    ((run toyL {} [.command 2 (.response toyR), .view 2 .dialing, .conn 1 true, .insub 1, .conndead 1]).1.pendingOutbound,
+     (run toyL {} [.command 2 (.response toyR), .view 2 .dialing, .conn 1 true, .insub 1, .conndead 1,
         .dialfail 2]).1.pendingOutbound) = ([(2, [.response toyR])], []) := by
   decide
 
